@@ -3,7 +3,7 @@
    out) and proved by `exact`.  The two hypotheses are C11's: a block's reported size is the number of
    body bytes it writes, and reading inverts writing; Instance.v exhibits a codec satisfying both. *)
 From FlacBase Require Import Res Bits.
-From FlacUpdIo Require Import GenUpd Update Update_proofs.
+From FlacUpdIo Require Import GenUpd Update Update_proofs Instance Instance_proofs.
 Open Scope N_scope.
 
 (* update_file returned Ok(false): in place *)
@@ -154,4 +154,22 @@ Example C10_decision_examples :
   d_update 100 si [app 16777216] = Err EOther /\
   (* two blocks of the same only-once class *)
   d_update 100 si [OOther KPicture (5, Some 2); OOther KPicture (6, Some 2)] = Err EOther.
+Proof. vm_compute. repeat split. Qed.
+
+(* the two hypotheses are satisfiable: a concrete codec with the real container layout (Instance.v) *)
+Theorem C10_hypotheses_satisfiable :
+  (forall p, lenN (i_ser p) = i_psize p) /\
+  (forall bl bytes rest, write_blocks ipayload i_psize i_ser i_uclass bl = Ok bytes ->
+                         i_read (bytes ++ rest) = Ok (bl, rest)).
+Proof. exact (conj i_ser_len i_read_write). Qed.
+
+(* whole files through update_file inside Coq: exact fit in place, one byte more rebuilt, a history *)
+Example C10_file_examples :
+  i_read demo_file = Ok (demo_bl, demo_audio) /\
+  (let '(st, r) := i_update_file (grow_comment 10) 0 demo_file in
+   r = Ok false /\ length (orig st) = length demo_file /\ skipn (length (orig st) - 8) (orig st) = demo_audio) /\
+  (let '(st, r) := i_update_file (grow_comment 11) 0 demo_file in
+   r = Ok true /\ orig st = demo_file /\ option_map (fun f => skipn (length f - 8) f) (rebuilt st) = Some demo_audio) /\
+  (let '(fn, rs) := i_run_edits [grow_comment 3; grow_comment 8; (fun _ => Err EOther); grow_comment 1] demo_file in
+   rs = [Ok false; Ok true; Err EOther; Ok false] /\ skipn (length fn - 8) fn = demo_audio).
 Proof. vm_compute. repeat split. Qed.
